@@ -72,7 +72,11 @@ Definition c10_check_with (d : disc) (c : c10case) : bool :=
   match c with
   | C10Case k g calls sched trace res =>
       let k' := N.to_nat k in
-      let (st, tr) := run_trace d k' g calls (map N.to_nat sched) in
+      (* the forced schedules of the harness run on a real sync.Mutex with every other
+         goroutine parked: Unlock wakes the longest-waiting goroutine, which takes the lock
+         and runs up to its cache.lookup hook before the harness regains control — the
+         first-come-first-served hand-off policy over the machine of Conc.v *)
+      let (st, tr) := hrun_trace fifo_grant d k' g calls (map N.to_nat sched) in
       nlist_eqb tr trace && threads_ok k' g calls (results st) res
   end.
 
